@@ -589,3 +589,101 @@ func TestVerifHubBurst(t *testing.T) {
 	enc.Encode(map[string]interface{}{"ev": "Final", "state": whNorm(st, names, rooms), "st": st})
 	h.stop()
 }
+
+// ---- senders blocked on a full queue while the hub closes the connection (specs/ws/WsBlock.tla) ----
+// Each round: queue of capacity qcap, no write pump, `senders` goroutines each sending `msgs` messages under the block
+// strategy; after a moment (some of them are blocked by then) the connection is unregistered, or evicted through a
+// broadcast.  The spec says every Send returns (queued or closed), at most qcap are queued, the hub finishes and goes
+// on serving.  Observed with a watchdog; one record per round.
+func TestVerifHubBlock(t *testing.T) {
+	outf, _ := os.Create(os.Getenv("VERIF_OUT"))
+	defer outf.Close()
+	enc := json.NewEncoder(outf)
+	rounds, _ := strconv.Atoi(os.Getenv("VERIF_ROUNDS"))
+	if rounds == 0 {
+		rounds = 40
+	}
+	seed, _ := strconv.ParseInt(os.Getenv("VERIF_SEED"), 10, 64)
+	rng := rand.New(rand.NewSource(seed + 77))
+	socks := newWhSockets()
+	defer socks.close()
+	for round := 0; round < rounds; round++ {
+		qcap := 1 + rng.Intn(2)
+		senders := 1 + rng.Intn(3)
+		msgs := 1 + rng.Intn(3)
+		how := "unregister"
+		delay := time.Duration(rng.Intn(4)) * time.Millisecond
+		h := newWhHarness(whCfg{MaxConns: 8, RoomCap: 8, QCap: qcap, Strategy: "block"}, []string{"a", "b"}, []string{"r"}, socks)
+		h.hub.register <- h.conns["a"]
+		h.barrier()
+		rec := map[string]interface{}{"ev": "BlockRound", "round": round, "qcap": qcap, "senders": senders, "msgs": msgs, "how": how}
+		results := make(chan string, senders*msgs)
+		var wg sync.WaitGroup
+		for s := 0; s < senders; s++ {
+			wg.Add(1)
+			go func() {
+				defer wg.Done()
+				for m := 0; m < msgs; m++ {
+					if err := h.conns["a"].Send([]byte("m")); err == nil {
+						results <- "queued"
+					} else {
+						results <- "closed"
+					}
+				}
+			}()
+		}
+		time.Sleep(delay)
+		hubDone := make(chan struct{})
+		go func() {
+			h.hub.unregister <- h.conns["a"]
+			h.barrier() // the hub has finished the unregister and serves the next request
+			close(hubDone)
+		}()
+		sendersDone := make(chan struct{})
+		go func() { wg.Wait(); close(sendersDone) }()
+		wd := time.After(4 * time.Second)
+		rec["hub_returns"], rec["senders_return"] = true, true
+		select {
+		case <-hubDone:
+		case <-wd:
+			rec["hub_returns"] = false
+		}
+		select {
+		case <-sendersDone:
+		case <-time.After(2 * time.Second):
+			rec["senders_return"] = false
+		}
+		queued, closed := 0, 0
+	drain:
+		for {
+			select {
+			case r := <-results:
+				if r == "queued" {
+					queued++
+				} else {
+					closed++
+				}
+			default:
+				break drain
+			}
+		}
+		rec["queued"], rec["closed"] = queued, closed
+		if rec["hub_returns"] == true && rec["senders_return"] == true {
+			// a send after the close is refused, and the hub still registers a newcomer
+			rec["late_send_refused"] = h.conns["a"].Send([]byte("late")) != nil
+			h.hub.register <- h.conns["b"]
+			h.barrier()
+			h.hub.connMu.RLock()
+			_, in := h.hub.connections[h.conns["b"]]
+			h.hub.connMu.RUnlock()
+			rec["hub_serves_afterwards"] = in
+			h.stop()
+		}
+		// (a wedged hub cannot be stopped: its goroutines are left behind and the remaining rounds are skipped)
+		enc.Encode(rec)
+		if rec["hub_returns"] != true || rec["senders_return"] != true {
+			break
+		}
+	}
+	enc.Encode(map[string]interface{}{"summary": 1})
+}
